@@ -12,7 +12,7 @@ import random
 import shutil
 from concurrent.futures import ThreadPoolExecutor
 
-from .. import corpus, netgen, tlc, vela_run
+from .. import corners, corpus, netgen, tlc, vela_run
 from ..common import Run, MachineryError, SPEC, seed
 
 FLAGS = {"sym": ["--force-symmetric-int-weights"], "verbose": ["--verbose-all"], "timing": ["--timing"],
@@ -190,6 +190,76 @@ def corner_models(rng, n):
     return out
 
 
+# ---- corner lattices enumerated by TLC (spec/CliCorners.tla) -----------------------------------
+QPACK = 12         # records of the quantisation lattice compiled by one invocation (independent branches of one model)
+
+
+def corner_env(tier, sd):
+    return {"CORNER_TIER": tier, "CORNER_SEED": str(sd % 12)}
+
+
+def corner_lattice(run, tier, sd):
+    """[(label, net, fallback_only, [keys of the records])]: every record TLC enumerates for this tier and seed"""
+    import json
+    res = tlc.must_ok(tlc.run("CliCorners", "CliCorners.cfg", workers=1, env=corner_env(tier, sd), timeout=600), "CliCorners enumeration")
+    run.add_mc("CliCorners(enumerate)", res)
+    recs = [json.loads(tlc.parse_value(p)[1]) for p in res["printed"] if p.startswith('<<"CORNER"')]
+    if len(recs) != res["distinct"] or not recs:
+        raise MachineryError("CliCorners printed %d records for %d states" % (len(recs), res["distinct"]))
+    recs.sort(key=lambda r: json.dumps(r, sort_keys=True))
+    out = []
+    by_dt = {}
+    for r in recs:
+        if r["fam"] == "qscale":
+            by_dt.setdefault(r["dt"], []).append(r)
+        else:
+            label, net, fb = corners.build([r], sd)
+            out.append((label, net, fb, [corners.key(r)]))
+    for dt in sorted(by_dt):
+        rs = sorted(by_dt[dt], key=lambda r: (r["op"], r["e"], r["m"]))
+        for k in range(0, len(rs), QPACK):
+            label, net, fb = corners.build(rs[k:k + QPACK], sd)
+            out.append((label, net, fb, [corners.key(r) for r in rs[k:k + QPACK]]))
+    fams = {}
+    for r in recs:
+        fams[r["fam"]] = fams.get(r["fam"], 0) + 1
+    run.cov["corner_lattice"] = {"records": fams, "models": len(out)}
+    return out
+
+
+def _cover(res):
+    """the COVER line of CliTrace: records of the plan that no event of the batch carries"""
+    import json
+    import re
+    m = re.search(r'<<\s*"COVER",\s*"((?:[^"\\]|\\.)*)"\s*>>', res["output"], re.S)
+    if not m:
+        raise MachineryError("CliTrace printed no COVER line")
+    return json.loads(json.loads('"' + m.group(1).replace("\n", " ") + '"'))
+
+
+def negative_controls(events, env):
+    """corrupted copies of recorded corner events must be rejected; a batch that lost a corner model must be reported"""
+    cev = [e for e in events if e.get("corner") and e["status"] == 0 and e["wrote"] and not e["tb"] and e["parses"]]
+    if not cev:
+        raise MachineryError("vacuity: no corner model compiled")
+    a = dict(cev[0], fallback_only=False)
+    ctl = [dict(a, t=0), dict(a, t=1, tb=True, status=1, wrote=False, parses=False), dict(a, t=2, status=1, wrote=False, diag=True, parses=False, fallback_only=True),
+           dict(a, t=3, parses=False), dict(a, t=4, timeout=True)]
+    _, v = tlc.validate_traces("CliTrace", "CliTrace.cfg", ctl)
+    got = {(x[0], x[1]) for x in v}
+    want = {(1, "CompilesOrDiagnoses"), (2, "UnsupportedFallsBackToCpu"), (3, "OutputIsAModel"), (4, "Terminates")}
+    if got != want:
+        raise MachineryError("negative control of CliTrace failed: got %s want %s" % (sorted(got), sorted(want)))
+    # coverage clause: a batch that carries only this one corner model must be told that every other record is missing
+    res, _ = tlc.validate_traces("CliTrace", "CliTrace.cfg", ctl[:1], env=env)
+    missing = set(_cover(res))
+    carried = {k for e in events for k in e.get("corner", [])}
+    if missing != carried - set(a["corner"]) or not missing or set(a["corner"]) & missing:
+        raise MachineryError("coverage control of CliTrace failed: %d records reported missing, %d expected"
+                             % (len(missing), len(carried - set(a["corner"]))))
+    return {"rejected": sorted("%d:%s" % g for g in got), "dropped_model_reported": len(missing)}
+
+
 def _invoke(args):
     i, label, net, opts, d = args
     sub = os.path.join(d, "j%d" % i)
@@ -296,6 +366,17 @@ def main(tier, only=None):
             optrecs.append(rec)
             if e.get("hint"):
                 hints[id(e["net"])] = e["hint"]
+    # corner lattices enumerated by TLC (CliCorners.tla): extreme quantisation parameters, multi-output CPU operators in
+    # CPU/NPU interleavings, deep chains; appended with option records of their own
+    lattice = corner_lattice(run, tier, sd)
+    recs = options_from_tlc(run, len(lattice), sd + 104729)
+    if len(recs) < len(lattice):
+        raise MachineryError("CliSpace produced %d option records for %d corner models" % (len(recs), len(lattice)))
+    corner_of = {}
+    for (label, net, fb, keys), rec in zip(lattice, recs):
+        corner_of[len(models)] = keys
+        models.append((label, net, fb))
+        optrecs.append(rec)
     from .. import codec
     codec.shim_dir()          # build the codec once, before the invocation threads start
     d = run.tmpdir("c13")
@@ -313,14 +394,19 @@ def main(tier, only=None):
         if "gen_error" in r:
             raise MachineryError("model generator failed for %s: %s" % (label, r["gen_error"]))
         fb = models[i][2] and "arena" not in opts and "config" not in opts
-        ev = dict(r["ev"], valid_options=True, fallback_only=fb)
+        ev = dict(r["ev"], valid_options=True, fallback_only=fb, corner=corner_of.get(i, []))
         events.append(ev)
         meta[i] = {"family": label, "args": r["args"], "net": net, "tail": r["tail"], "rc": r["rc"]}
         run.evaluated()
         run.nontrivial((label, tuple(r["args"])))
         run.sample({"family": label, "args": r["args"], "outcome": r["ev"]})
-    tres, viol = tlc.validate_traces("CliTrace", "CliTrace.cfg", events)
+    tres, viol = tlc.validate_traces("CliTrace", "CliTrace.cfg", events, env=corner_env(tier, sd))
     run.add_trace_run("CliTrace", tres, len(events))
+    uncovered = _cover(tres)
+    if uncovered:
+        raise MachineryError("vacuity: %d records of the corner lattice of CliCorners.tla reached no invocation: %s"
+                             % (len(uncovered), uncovered[:5]))
+    run.cov["negative_controls"] = negative_controls(events, corner_env(tier, sd))
     for t, name in viol:
         m = meta[t]
         key = "%s|%s" % (name, signature(m["tail"]))
@@ -329,8 +415,11 @@ def main(tier, only=None):
                       {"net": m["net"], "args": m["args"], "observed": events[t], "output_tail": m["tail"]})
     pipeline_component(run, tier, sd)
     run.cov["rule"] = ("one CLI subprocess per (model, option record); option records are final states of CliSpace.tla "
-                       "behaviours drawn by TLC -simulate; models from the shared corpus and the corner-shape "
-                       "families; distinct = distinct (family, argument list)")
+                       "behaviours drawn by TLC -simulate; models from the shared corpus, the corner-shape "
+                       "families and the corner lattices TLC enumerates from CliCorners.tla (quantisation binades at the "
+                       "limits of the scale shift / multiplier, multi-output CPU operators in CPU/NPU interleavings, deep "
+                       "chains; CliTrace.tla recomputes the plan and reports records no invocation carried); "
+                       "distinct = distinct (family, argument list)")
     run.cov["outcomes"] = {k: sum(1 for e in events if (e["status"], e["wrote"]) == k2) for k, k2 in
                            (("compiled", (0, True)), ("rejected", (1, False)), ("usage", (2, False)))}
     run.assumptions += ["a diagnosis is recognised by 'Error'/'error:'/'usage:' in the output; a crash by a Python traceback",
